@@ -213,6 +213,8 @@ def explain(line, got, want, c):
         return "accept-reject"
     gd, gq, gf = g
     wd, wq, _ = w
+    if "dead-listener" in gf:
+        return "pending-event-of-destroyed-listener"
     if gf:
         return "structure:" + "+".join(sorted(set(gf)))
     op = c.get("op")
